@@ -52,7 +52,10 @@ def mk(kind, rest, value, expr):
         ty, _, member = rest.partition("::")
         ok = ("offset_of!(" in expr) or ("addr_of!((*ptr)." in expr)
         return ["offset" if ok else "offset?", ty, member, value]
-    return ["inst", kind + rest, "", value]
+    # template instantiation: the Rust type the number is asserted of tells instantiations apart whose
+    # message names coincide (same unqualified argument names in different namespaces)
+    m = re.search(r"(?:size_of|align_of)::<(.*)>\(\)", expr)
+    return ["inst", kind + rest, m.group(1) if m else "", value]
 
 
 KEYWORDS = set("""abstract alignof as async await become box break const continue crate do dyn else enum extern
@@ -254,32 +257,78 @@ def forms_and_off(res, tier, decls):
     res.add(traces_validated_against_impl=len(seen))
 
 
+INST_FAMILIES = [
+    # (name, header, {rust type without `root::` and blanks: (size, align)}, names that must not be asserted)
+    ("basic",
+     "template<class T> struct Wr { T t; int n; };\ntemplate<class T, class U> struct Pr { T a; U b; };\n"
+     "struct X { Wr<int> wi; Wr<double> wd; Pr<char, long> p; Wr<Wr<short> > ww; };\n"
+     "template<class T> struct Gen { Wr<T> inner; };\n",
+     {"Wr<c_int>": (8, 4), "Wr<f64>": (16, 8), "Pr<c_char,c_long>": (16, 8), "Wr<Wr<c_short>>": (12, 4)}, ["Gen"]),
+    # the same unqualified argument name in two namespaces: one message name, two instantiations
+    ("same-arg-name",
+     "template <typename T> struct Box { T value; T other; };\n"
+     "namespace small { typedef char Elem; struct Holder { Box<Elem> b; }; }\n"
+     "namespace big { typedef long long Elem; struct Holder { Box<Elem> b; }; }\n",
+     {"Box<small::Elem>": (2, 1), "Box<big::Elem>": (16, 8)}, []),
+    # the same template name in two namespaces, the same argument
+    ("same-template-name",
+     "namespace a { template<class T> struct W { T t; }; struct UA { W<int> w; W<char> c; }; }\n"
+     "namespace b { template<class T> struct W { T t; T u; }; struct UB { W<int> w; }; }\n",
+     {"a::W<c_int>": (4, 4), "a::W<c_char>": (1, 1), "b::W<c_int>": (8, 4)}, []),
+    # one instantiation used from several places, and an instantiation only used through a pointer
+    ("many-uses",
+     "template<class T> struct Wr { T t; int n; };\n"
+     "struct Y { Wr<long> a; Wr<long> b; }; struct Z { Wr<long> c; Wr<short> d[2]; };\n",
+     {"Wr<c_long>": (16, 8), "Wr<c_short>": (8, 4)}, []),
+]
+
+
+def inst_key(ty):
+    """`root::Box<root::small::Elem>` / `Box<small_Elem>` -> Box<small::Elem>; ::std::os::raw:: dropped"""
+    t = re.sub(r"::std::os::raw::|::core::ffi::|root::", "", ty)
+    return t
+
+
 def instantiations(res, tier):
+    """every concrete instantiation that appears in the bindings gets a size and an alignment assertion with
+    clang's numbers - in both forms (const block / #[test] fn), with and without C++ namespaces"""
     w = C.workdir("c06-inst")
-    hp = os.path.join(w, "t.hpp")
-    with open(hp, "w") as f:
-        f.write("template<class T> struct Wr { T t; int n; };\ntemplate<class T, class U> struct Pr { T a; U b; };\n"
-                "struct X { Wr<int> wi; Wr<double> wd; Pr<char, long> p; Wr<Wr<short> > ww; };\n"
-                "template<class T> struct Gen { Wr<T> inner; };\n")
-    p, log, outp = run_bindgen_logged(w, "inst", [hp, "--formatter=none"])
-    if p.returncode != 0:
-        raise C.ToolError("instantiation family failed: " + p.stderr[-800:])
-    with open(outp) as f:
-        items, _ = parse_asserts(f.read())
-    inst = [i for i in items if i[0] == "inst"]
-    # concrete instantiations used by X: Wr<int> (8,4), Wr<double> (16,8), Pr<char,long> (16,8), Wr<Wr<short>> (12,4)
-    want = {"Wr_open0_int_close0": (8, 4), "Wr_open0_double_close0": (16, 8), "Pr_open0_char_long_close0": (16, 8),
-            "Wr_open0_Wr_open1_short_close1_close0": (12, 4)}
-    for name, (sz, al) in want.items():
-        s = [i for i in inst if i[1] == "Sizeoftemplatespecialization:" + name]
-        a = [i for i in inst if i[1] == "Alignoftemplatespecialization:" + name]
-        if not s or not a:
-            res.violation("instantiation-assertion-missing", {"instantiation": name, "found": [i[1] for i in inst]})
-        elif s[0][3] != sz or a[0][3] != al:
-            res.violation("instantiation-assertion-wrong-number", {"instantiation": name, "size": s[0][3], "align": a[0][3], "clang": [sz, al]})
-    if any("Gen" in i[1] for i in inst):
-        res.violation("assertion-for-template-definition", {"items": [i[1] for i in inst]})
-    res.add(instantiation_assertions=len(inst))
+    n = 0
+    for fname, text, want, never in INST_FAMILIES:
+        hp = os.path.join(w, fname + ".hpp")
+        with open(hp, "w") as f:
+            f.write(text)
+        for form, fargs in (("const", []), ("test", ["--rust-target", "1.70"])):
+            for ns, nargs in (("ns", ["--enable-cxx-namespaces"]), ("flat", [])):
+                tag = "%s-%s-%s" % (fname, form, ns)
+                p, log, outp = run_bindgen_logged(w, tag, [hp, "--formatter=none"] + fargs + nargs)
+                if p.returncode != 0:
+                    raise C.ToolError("instantiation family %s failed: %s" % (tag, p.stderr[-800:]))
+                with open(outp) as f:
+                    items, forms = parse_asserts(f.read())
+                inst = [i for i in items if i[0] == "inst"]
+                got = {}
+                for i in inst:
+                    k = inst_key(i[2])
+                    if ns == "flat":
+                        k = k.replace("small_Elem", "small::Elem").replace("big_Elem", "big::Elem") \
+                             .replace("a_W", "a::W").replace("b_W", "b::W")
+                    what = "size" if i[1].startswith("Sizeof") else "align"
+                    got.setdefault(k, {}).setdefault(what, set()).add(i[3])
+                where = {"family": fname, "form": form, "namespaces": ns == "ns", "header": text,
+                         "asserted": {k: {a: sorted(b) for a, b in v.items()} for k, v in got.items()}}
+                for ty, (sz, al) in want.items():
+                    g = got.get(ty)
+                    if not g or "size" not in g or "align" not in g:
+                        res.violation("instantiation-assertion-missing:%s" % form, dict(where, instantiation=ty))
+                    elif g["size"] != {sz} or g["align"] != {al}:
+                        res.violation("instantiation-assertion-wrong-number", dict(where, instantiation=ty, clang=[sz, al]))
+                    n += 1
+                if any(x in k for k in got for x in never):
+                    res.violation("assertion-for-template-definition", where)
+                if forms["test" if form == "const" else "const"]:
+                    res.drift.append("%s: assertions in the other form than the target selects" % tag)
+    res.add(instantiation_assertions=n, instantiation_families=len(INST_FAMILIES))
 
 
 def run(res, tier):
